@@ -24,6 +24,7 @@ type Plan struct {
 	Offset   int64            `json:"offset"`             // fake ns slept before anything starts (seeds the daemon's PRNGs)
 	Cancel   uint64           `json:"cancel,omitempty"`   // order in which a cancelled context cancels its children (0 = insertion order)
 	Sched    uint64           `json:"sched,omitempty"`    // seed of the yield perturbation: at the synchronisation points tools/yieldinst marked, a goroutine steps back behind the other runnable ones when this sequence says so (0 = never)
+	Bias     map[string]uint64 `json:"bias,omitempty"`     // with Sched: policy of the yield sites whose name starts with the key (0 = never steps back, 3 = always), overriding what the seed says
 	Nodes    []NodeSpec       `json:"nodes"`
 	Loop     []RouteW         `json:"loop,omitempty"`    // loopback routes (world-global)
 	LoopIdx  []int            `json:"loopidx,omitempty"` // indexes of loopback interfaces (default [1])
